@@ -50,6 +50,8 @@ theorem bestUnionTag_spec {a T : Ty} {tag : Nat} (h : bestUnionTag a T = some ta
   | set _ => simp [hu] at h
   | map _ _ => simp [hu] at h
   | named _ _ => simp [hu] at h
+  | enum _ => simp [hu] at h
+  | error _ => simp [hu] at h
 
 theorem bestUnionTag_under (a T : Ty) : bestUnionTag a T.under = bestUnionTag a T := by
   unfold bestUnionTag; rw [under_idem]
@@ -323,6 +325,8 @@ theorem inner_ok (orig T i oi : Ty) (isSet : Bool) (ho : orig.inner? = some i) (
   | map _ _ => simp [hu] at hT
   | union _ => simp [hu] at hT
   | named _ _ => simp [hu] at hT
+  | enum _ => simp [hu] at hT
+  | error _ => simp [hu] at hT
 
 theorem isUnion_cases {T : Ty} (h : T.isUnion = true) : ∃ ms, T.under = .union ms := by
   unfold Ty.isUnion at h
@@ -342,6 +346,18 @@ theorem fitsU_ok : (cur orig T : Ty) → cur.under = orig.under → fitsU orig c
   | .map k v, orig, T, hc, hf => by
     simp only [fitsU] at hf
     exact union_member_ok orig _ T hf (by simp [shaperTypeU, bestUnionTag_under, hf]) (by simp [newStepU])
+  | .enum ss, orig, T, hc, hf => by
+    simp only [fitsU] at hf
+    obtain ⟨_, _, _, _, hu⟩ := toUnion_ok hf
+    obtain ⟨ms, hms⟩ := isUnion_cases hu
+    exact union_member_ok orig _ T hf (by simp [shaperTypeU, bestUnionTag_under, hf])
+      (by simp [newStepU, Ty.isPrim, hms])
+  | .error e, orig, T, hc, hf => by
+    simp only [fitsU] at hf
+    obtain ⟨_, _, _, _, hu⟩ := toUnion_ok hf
+    obtain ⟨ms, hms⟩ := isUnion_cases hu
+    exact union_member_ok orig _ T hf (by simp [shaperTypeU, bestUnionTag_under, hf])
+      (by simp [newStepU, Ty.isPrim, hms])
   | .record fa, orig, T, hc, hf => by
     simp only [fitsU, Bool.or_eq_true] at hf
     by_cases hb : (bestUnionTag orig T).isSome = true
@@ -362,6 +378,8 @@ theorem fitsU_ok : (cur orig T : Ty) → cur.under = orig.under → fitsU orig c
         | map _ _ => simp [hT] at hf
         | union _ => simp [hT] at hf
         | named _ _ => simp [hT] at hf
+        | enum _ => simp [hT] at hf
+        | error _ => simp [hT] at hf
   | .array i, orig, T, hc, hf => by
     simp only [fitsU, Bool.or_eq_true] at hf
     by_cases hb : (bestUnionTag orig T).isSome = true
@@ -432,8 +450,13 @@ theorem fitsMembers_ok : (ms : Tys) → (T : Ty) → fitsMembers ms T = true →
 end
 
 /-- **fits ⇒ good plan.** -/
-theorem fits_planOK {a T : Ty} (h : fits a T = true) : PlanOK a T :=
-  planOK_of_head h (fun hd => fitsU_ok a a T rfl hd)
+theorem fits_planOK {a T : Ty} (h : fits a T = true) : PlanOK a T := by
+  simp only [fits, fitsN, Bool.and_eq_true] at h
+  exact planOK_of_head h.2 (fun hd => fitsU_ok a a T rfl hd)
+
+theorem fits_error {a T : Ty} (h : fits a T = true) : a.isError = false ∨ a = T := by
+  simp only [fits, Bool.and_eq_true, Bool.or_eq_true, Bool.not_eq_true', beq_iff_eq] at h
+  exact h.1
 
 theorem goodStep_congr {a a' : Ty} (h : a.under = a'.under) (s : Step) : goodStep a s = goodStep a' s := by
   cases s <;> simp [goodStep, Ty.isUnion, Ty.members, Ty.inner?, Ty.isRecord, Ty.fields, h]
@@ -450,28 +473,36 @@ theorem newShaper_of_fits {a T : Ty} (h : fits a T = true) :
 theorem evalGuard_of_fits {T : Ty} {c : Cache} {a : Ty} (v : Val) (hc : CacheOK T c) (h : fits a T = true) :
     evalGuard T c a v = true ∧ CacheOK T (evalShaper T c a v).2 := by
   unfold evalGuard evalShaper
-  by_cases hv : v = .null
-  · simp [hv, hc]
-  · by_cases hu : a.under = T.under
-    · simp [hv, hu, hc]
-    · simp only [hv, hu, if_false]
-      cases hf : c.find a.under with
-      | some p =>
-        obtain ⟨typ, s⟩ := p
-        obtain ⟨h1, a', h2, h3⟩ := hc _ _ _ hf
-        simp only [h1, beq_self_eq_true, Bool.true_and]
-        exact ⟨by rw [goodStep_congr h2.symm] ; exact h3, hc⟩
-      | none =>
-        obtain ⟨s, h1, h2, h3⟩ := newShaper_of_fits h
-        simp only [h1, h2, beq_self_eq_true, h3, Bool.and_self, true_and]
-        intro k typ s' hk
-        simp only [Cache.find] at hk
-        by_cases hka : a.under = k
-        · simp only [hka, if_true, Option.some.injEq, Prod.mk.injEq] at hk
-          obtain ⟨_, rfl⟩ := hk
-          exact ⟨h2, a, hka, h3⟩
-        · simp only [hka, if_false] at hk
-          exact hc _ _ _ hk
+  by_cases he : a.isError = true
+  · rcases fits_error h with h' | h'
+    · rw [h'] at he; exact absurd he (by simp)
+    · subst h'
+      refine ⟨by simp [he], ?_⟩
+      simp only [he, if_true]
+      exact hc
+  · simp only [he, Bool.false_eq_true, if_false]
+    by_cases hv : v = .null
+    · simp [hv, hc]
+    · by_cases hu : a.under = T.under
+      · simp [hv, hu, hc]
+      · simp only [hv, hu, if_false]
+        cases hf : c.find a.under with
+        | some p =>
+          obtain ⟨typ, s⟩ := p
+          obtain ⟨h1, a', h2, h3⟩ := hc _ _ _ hf
+          simp only [h1, beq_self_eq_true, Bool.true_and]
+          exact ⟨by rw [goodStep_congr h2.symm] ; exact h3, hc⟩
+        | none =>
+          obtain ⟨s, h1, h2, h3⟩ := newShaper_of_fits h
+          simp only [h1, h2, beq_self_eq_true, h3, Bool.and_self, true_and]
+          intro k typ s' hk
+          simp only [Cache.find] at hk
+          by_cases hka : a.under = k
+          · simp only [hka, if_true, Option.some.injEq, Prod.mk.injEq] at hk
+            obtain ⟨_, rfl⟩ := hk
+            exact ⟨h2, a, hka, h3⟩
+          · simp only [hka, if_false] at hk
+            exact hc _ _ _ hk
 
 theorem guardsFrom_of_fits (T : Ty) : (xs : List Input) → (c : Cache) → CacheOK T c →
     (∀ x ∈ xs, fits x.ty T = true) → ∀ g ∈ guardsFrom T c xs, g = true
